@@ -376,6 +376,127 @@ func raceFamily(r *ev.Run) {
 	}
 }
 
+// ---- directed family: heartbeats that differ from the served region in exactly one field -------------
+//
+// An operator is executed with its own steps only. After step k has been applied and reported, one more
+// heartbeat arrives that differs from the region pd serves in exactly one field (a pending mark, a down
+// mark, the size, the term), for every k and every field. The operator must still end in success.
+func oneFieldFamily(r *ev.Run) {
+	n := 0
+	for _, want := range []string{"add-peer", "move-peer", "demote-k", "swap-roles"} {
+		for _, field := range []string{"mark-pending", "down", "size", "term"} {
+			for k := 0; k < 6; k++ {
+				n++
+				rng := rand.New(rand.NewSource(int64(11000 + n)))
+				w, err := newWorld(r, rng, -2000-n, modeJoint, 6, 1, []string{"1v* 2v 3v 4l"})
+				if err != nil {
+					r.Inconclusive("one-field family: %v", err)
+					return
+				}
+				w.phase = "one-field-heartbeat"
+				g := w.regs[101]
+				w.evNo++
+				ts := w.submit(g, g.view, false, false, false, want)
+				if len(ts) != 1 || w.running[g.id] != ts[0] {
+					w.close()
+					break
+				}
+				t := ts[0]
+				r.Count("one_field_family_cases", 1)
+				for round := 0; round < 16 && !t.done; round++ {
+					for len(g.inbox) > 0 {
+						_ = w.exec(g, 0, true)
+					}
+					if len(g.sim.Pending) > 0 && round != k {
+						w.oneField(g, "settle-pending")
+					}
+					w.evNo++
+					w.heartbeat(g)
+					if round == k && !t.done {
+						w.evNo++
+						if w.oneField(g, field) {
+							w.heartbeat(g)
+						}
+					}
+				}
+				w.settle()
+				steps := t.op.Len()
+				w.close()
+				if k >= steps {
+					break
+				}
+			}
+		}
+	}
+}
+
+// ---- directed family: two regions at the same step at the same time, commands kept queued ----------------
+//
+// Two (or three) regions get the same kind of operator and advance in lockstep; the store side reads
+// the stream only after all of them have been dispatched, so several commands of the same kind are
+// queued together. Every command is judged as a value when it is read and again when it is executed.
+func sameStepFamily(r *ev.Run) {
+	n := 0
+	for _, want := range []string{"demote-k", "swap-roles", "move-peer", "add-peer", "transfer", "remove-peer", "split"} {
+		for _, nreg := range []int{2, 3} {
+			for _, immediate := range []bool{false, true} {
+				n++
+				rng := rand.New(rand.NewSource(int64(12000 + n)))
+				w, err := newWorld(r, rng, -3000-n, modeJoint, 6, 3, []string{"1v* 2v 3v 4l", "1v* 2v 3v 4l", "1v* 2v 3v 4l"})
+				if err != nil {
+					r.Inconclusive("same-step family: %v", err)
+					return
+				}
+				w.phase = "same-step-commands-queued"
+				if !immediate {
+					w.lazy = 64 // nothing is read until readStream is called
+				}
+				var ts []*opTrack
+				for i := 0; i < nreg; i++ {
+					g := w.regs[w.rids[i]]
+					w.evNo++
+					ts = append(ts, w.submit(g, g.view, false, false, false, want)...)
+				}
+				r.Count("same_step_family_cases", 1)
+				for round := 0; round < 14; round++ {
+					alldone := true
+					for _, t := range ts {
+						if !t.done {
+							alldone = false
+						}
+					}
+					if alldone {
+						break
+					}
+					if len(w.queued) > 0 {
+						w.readStream()
+					}
+					if immediate {
+						// all commands are read first, then executed one region after the other: a command that
+						// is still waiting in a store's inbox must not change when the next one is sent
+						for _, t := range ts {
+							w.evNo++
+							w.dispatchPush(t.g)
+						}
+					}
+					for _, t := range ts {
+						for len(t.g.inbox) > 0 {
+							_ = w.exec(t.g, 0, true)
+						}
+					}
+					for _, t := range ts {
+						w.evNo++
+						w.heartbeat(t.g)
+					}
+				}
+				w.lazy = 0
+				w.settle()
+				w.close()
+			}
+		}
+	}
+}
+
 // ---- own steps only -----------------------------------------------------------------------------------------
 
 // ownOnly: each generated operator is executed to completion with nothing else touching its region.
@@ -414,6 +535,9 @@ func (w *world) ownOnly(n int) {
 			if alldone {
 				break
 			}
+			if len(w.queued) > 0 && (round > 2 || rng.Intn(2) == 0) {
+				w.readStream()
+			}
 			for _, t := range ts {
 				tg := t.g
 				for len(tg.inbox) > 0 && !tg.dead {
@@ -423,6 +547,11 @@ func (w *world) ownOnly(n int) {
 					if dup && len(tg.inbox) > 0 && !tg.dead {
 						_ = w.exec(tg, 0, true)
 					}
+				}
+			}
+			for _, t := range ts {
+				if !t.g.dead && len(t.g.sim.Pending) > 0 && rng.Intn(2) == 0 {
+					w.oneField(t.g, "settle-pending")
 				}
 			}
 			for _, t := range ts {
@@ -505,6 +634,13 @@ func (w *world) randomLoop(events int) {
 		}
 		if g.dirty {
 			cs = append(cs, choice{"put-only", 8})
+		}
+		if len(w.queued) > 0 {
+			cs = append(cs, choice{"read-stream", 10})
+		}
+		cs = append(cs, choice{"one-field-heartbeat", 4})
+		if len(g.sim.Pending) > 0 {
+			cs = append(cs, choice{"settle-pending", 6})
 		}
 		if len(regs) > 2 {
 			cs = append(cs, choice{"foreign-evict", 1})
@@ -591,6 +727,16 @@ func (w *world) randomLoop(events int) {
 			w.pushOperators()
 		case "promote":
 			w.promote()
+		case "read-stream":
+			w.readStream()
+		case "one-field-heartbeat":
+			if !g.dirty && w.oneField(g, []string{"mark-pending", "down", "size", "term", "settle-pending"}[rng.Intn(5)]) {
+				w.heartbeat(g)
+			}
+		case "settle-pending":
+			if w.oneField(g, "settle-pending") && rng.Intn(2) == 0 {
+				w.heartbeat(g)
+			}
 		case "foreign-evict":
 			// the region is swallowed by a neighbour outside this world while operators run / wait on it
 			w.foreignEvict(g)
@@ -673,10 +819,16 @@ func (w *world) settle() {
 	w.phase = "settle"
 	for round := 0; round < 12; round++ {
 		busy := false
+		if len(w.queued) > 0 {
+			w.readStream()
+		}
 		for _, g := range w.liveRegions() {
 			for len(g.inbox) > 0 && !g.dead {
 				w.evNo++
 				_ = w.exec(g, 0, true)
+			}
+			if len(g.sim.Pending) > 0 {
+				w.oneField(g, "settle-pending")
 			}
 			if !g.dead && (w.running[g.id] != nil || g.dirty) {
 				busy = true
@@ -745,6 +897,8 @@ func main() {
 	canonical(r)
 	directedWaiting(r)
 	raceFamily(r)
+	oneFieldFamily(r)
+	sameStepFamily(r)
 	rand.Seed(seed)
 
 	worlds := r.Pick(450, 1400)
@@ -767,6 +921,17 @@ func main() {
 			break
 		}
 		r.Count("worlds_"+mode, 1)
+		if rng.Intn(3) == 0 {
+			w.lazy = 2 + rng.Intn(7) // the store side reads the stream only when that many commands are queued
+			r.Count("worlds_with_commands_kept_queued", 1)
+		}
+		if rng.Intn(4) == 0 {
+			for _, id := range w.rids {
+				w.regs[id].sim.HoldNewPeersPending = true // new peers are reported pending until their snapshot is applied
+			}
+			w.pendingWorld = true
+			r.Count("worlds_with_pending_new_peers", 1)
+		}
 		w.ownOnly(ownN)
 		w.randomLoop(events)
 		w.settle()
